@@ -118,7 +118,15 @@ def writer_trace(T, M, meth, x, pyver=(3, 8)):
             depth -= 1
             trace.append(("]", None, ()))
         elif k == "call" and str(e.args[0]) == "WRITE":
-            trace.append(("write", classify_write(e.args[1][0]), e.guards))
+            # one write of a conditional value is two conditional writes (write(A if c else B)  ==  if c: write(A) else: write(B))
+            from ..sve import neg as _neg
+
+            def arms_(v, conds):
+                if isinstance(v, Guard):
+                    return arms_(v.a, conds + (v.cond,)) + arms_(v.b, conds + (_neg(v.cond),))
+                return [(conds, v)]
+            for conds_, v_ in arms_(e.args[1][0], ()):
+                trace.append(("write", classify_write(v_), tuple(e.guards or ()) + conds_))
         elif k == "call" and str(e.args[0]).endswith("_Marshaller.dump"):
             trace.append(("dump", e.args[1][1] if len(e.args[1]) > 1 else None, e.guards))
     return trace, out, sp
